@@ -4,4 +4,4 @@ From NinjaV Require Import Base.Bytes Canon.CanonDefs Dyndep.DyndepDefs.
 Extraction Language OCaml.
 Set Extraction KeepSingleton.
 Extraction "dyndepmodel.ml" dyndep_load parse_dyndep parse_gen graph_chk load_dyndep inline_dyndep
-  print_dyndep edge_restat producer out_edges wf_stmt wf_name read_token read_path ub_self_input.
+  print_dyndep edge_restat producer out_edges wf_stmt wf_name read_token read_path load_dyndep_old.
